@@ -16,6 +16,103 @@ use md5::{Digest, Md5};
 
 pub use self::{file_definition::FileDefinition, record::Record};
 
+/// Thin wrappers around crate-private codecs and integer codings for the verification harness.
+#[cfg(noodles_verif)]
+#[doc(hidden)]
+pub mod verif {
+    use std::io;
+
+    use crate::codecs::{aac, bzip2, fqzcomp, gzip, lzma, name_tokenizer, rans_4x8, rans_nx16};
+
+    pub fn rans_4x8_encode(order: rans_4x8::Order, src: &[u8]) -> io::Result<Vec<u8>> {
+        rans_4x8::encode(order, src)
+    }
+
+    pub fn rans_4x8_decode(src: &[u8]) -> io::Result<Vec<u8>> {
+        rans_4x8::decode(src)
+    }
+
+    pub fn rans_nx16_encode(flags: rans_nx16::Flags, src: &[u8]) -> io::Result<Vec<u8>> {
+        rans_nx16::encode(flags, src)
+    }
+
+    pub fn rans_nx16_decode(src: &[u8], uncompressed_size: usize) -> io::Result<Vec<u8>> {
+        rans_nx16::decode(src, uncompressed_size)
+    }
+
+    pub fn aac_encode(flags: aac::Flags, src: &[u8]) -> io::Result<Vec<u8>> {
+        aac::encode(flags, src)
+    }
+
+    pub fn aac_decode(src: &[u8], uncompressed_size: usize) -> io::Result<Vec<u8>> {
+        aac::decode(src, uncompressed_size)
+    }
+
+    pub fn fqzcomp_encode(lens: &[usize], src: &[u8]) -> io::Result<Vec<u8>> {
+        fqzcomp::encode(lens, src)
+    }
+
+    pub fn fqzcomp_decode(src: &[u8]) -> io::Result<Vec<u8>> {
+        fqzcomp::decode(src)
+    }
+
+    pub fn name_tokenizer_encode(src: &[u8]) -> io::Result<Vec<u8>> {
+        name_tokenizer::encode(src)
+    }
+
+    pub fn name_tokenizer_decode(src: &[u8]) -> io::Result<Vec<u8>> {
+        name_tokenizer::decode(src)
+    }
+
+    pub fn gzip_encode(level: u32, src: &[u8]) -> io::Result<Vec<u8>> {
+        gzip::encode(flate2::Compression::new(level), src)
+    }
+
+    pub fn gzip_decode(src: &[u8], dst: &mut [u8]) -> io::Result<()> {
+        gzip::decode(src, dst)
+    }
+
+    pub fn bzip2_encode(level: u32, src: &[u8]) -> io::Result<Vec<u8>> {
+        bzip2::encode(::bzip2::Compression::new(level), src)
+    }
+
+    pub fn bzip2_decode(src: &[u8], dst: &mut [u8]) -> io::Result<()> {
+        bzip2::decode(src, dst)
+    }
+
+    pub fn lzma_encode(level: u32, src: &[u8]) -> io::Result<Vec<u8>> {
+        lzma::encode(level, src)
+    }
+
+    pub fn lzma_decode(src: &[u8], dst: &mut [u8]) -> io::Result<()> {
+        lzma::decode(src, dst)
+    }
+
+    pub fn read_itf8(src: &mut &[u8]) -> io::Result<i32> {
+        crate::io::reader::num::read_itf8(src)
+    }
+
+    pub fn write_itf8(dst: &mut Vec<u8>, n: i32) -> io::Result<()> {
+        crate::io::writer::num::write_itf8(dst, n)
+    }
+
+    pub fn read_ltf8(src: &mut &[u8]) -> io::Result<i64> {
+        crate::io::reader::num::read_ltf8(src)
+    }
+
+    pub fn write_ltf8(dst: &mut Vec<u8>, n: i64) -> io::Result<()> {
+        crate::io::writer::num::write_ltf8(dst, n)
+    }
+
+    pub fn read_uint7(src: &mut &[u8]) -> io::Result<u32> {
+        crate::io::reader::num::read_uint7(src)
+    }
+
+    pub fn write_uint7(dst: &mut Vec<u8>, n: u32) -> io::Result<()> {
+        crate::io::writer::num::write_uint7(dst, n)
+    }
+}
+
 const MAGIC_NUMBER: [u8; 4] = *b"CRAM";
 const MD5_OUTPUT_SIZE: usize = 16;
 
